@@ -78,7 +78,8 @@ class ServerPeer:
                 self._later(self.spec.get("hs_delay", 0), self.sock.peer_eof)
             else:
                 code = mode[1]
-                resp = f"HTTP/1.1 {code} Nope\r\nContent-Length: 0\r\n\r\n".encode()
+                declared, body = (mode[2], mode[3]) if len(mode) > 3 else (0, b"")  # an error body may be shorter than announced
+                resp = f"HTTP/1.1 {code} Nope\r\nContent-Length: {declared}\r\n\r\n".encode() + body
 
                 def rej():
                     self.deliver(resp)
